@@ -346,6 +346,47 @@ Eval(e, env, st, cx) ==
                ELSE LET kw == [n \in {e.kwn[i] : i \in 1..Len(e.kwn)} |-> kr.v[CHOOSE i \in 1..Len(e.kwn) : e.kwn[i] = n]]
                         c  == MkCtx(e.cls, r.v, kw)
                     IN  IF ValidCtx(c) THEN Ok(CtxV(c), kr.st) ELSE Er("ValueError", kr.st)
+      [] e.k = "Prim" ->
+           \* the Python primitives of fpy2.libraries.core, specified from their docstrings; every
+           \* component is returned through ctx.round(., exact=True): an unrepresentable part is an error
+           LET r == EvalArgs(e.a, 1, env, st, cx, <<>>)
+               exact(v) == LET y == MRound(cx, v, r.st)
+                           IN  IF y.err # "" THEN y
+                               ELSE IF v.k = "fin" /\ ~SameVal(y.v, v) THEN Er("ValueError", r.st) ELSE y
+               pair(a, b) == LET x == exact(a)  y == exact(b)
+                             IN  IF x.err # "" THEN x ELSE IF y.err # "" THEN y ELSE Ok(Tup(<<x.v, y.v>>), r.st)
+           IN  IF r.err # "" THEN r
+               ELSE IF \E i \in 1..Len(r.v) : ~IsNum(r.v[i]) THEN Er("TypeError", r.st)
+               ELSE IF \E i \in 1..Len(r.v) : ~Small(r.v[i]) THEN Er("OutOfDomain", r.st)
+               ELSE IF cx.fam = "real" /\ e.fn \in {"max_p", "min_n"} THEN Er("ValueError", r.st)
+               ELSE IF cx.fam # "real" /\ BigCtx(cx) THEN Er("OutOfDomain", r.st)
+               ELSE
+               CASE e.fn = "max_p" ->
+                      IF cx.fam = "exp" THEN MRound(cx, OfInt(1), r.st)
+                      ELSE LET f == Core(cx) IN IF f.hasP THEN MRound(cx, OfInt(f.p), r.st) ELSE Er("ValueError", r.st)
+                 [] e.fn = "min_n" ->
+                      IF cx.fam = "exp" THEN Er("ValueError", r.st)
+                      ELSE LET f == Core(cx) IN IF f.hasN THEN MRound(cx, OfInt(f.nmin), r.st) ELSE Er("ValueError", r.st)
+                 [] e.fn \in {"modf", "split"} ->
+                      LET x == r.v[1]
+                          n == IF e.fn = "modf" THEN -1 ELSE IntOf(r.v[2])
+                      IN  IF e.fn = "split" /\ ~IsIntV(r.v[2]) THEN Er("ValueError", r.st)
+                          ELSE IF x.k = "nan" THEN pair(NaN, NaN)
+                          ELSE IF x.k = "inf" THEN (IF e.fn = "modf" THEN pair(Zero(x.s), x) ELSE pair(x, x))
+                          ELSE IF x.n = 0 THEN pair(x, x)
+                          ELSE LET hi == RoundU([hasP |-> FALSE, p |-> 0, hasN |-> TRUE, nmin |-> n], "RTZ", x).val
+                                   lo == RSub(x, hi)
+                               IN  pair(hi, IF lo.n = 0 THEN Zero(x.s) ELSE lo)
+                 [] e.fn = "frexp" ->
+                      LET x == r.v[1]
+                      IN  IF x.k = "nan" THEN pair(NaN, NaN)
+                          ELSE IF x.k = "inf" THEN pair(x, NaN)
+                          ELSE IF x.n = 0 THEN pair(x, Zero(0))
+                          ELSE LET ex == FloorLog2(x.n, x.d)
+                                   m  == RMulPow2(x, -ex)
+                                   ev == MRound(cx, OfInt(ex), r.st)
+                                   mv == exact(m)
+                               IN  IF mv.err # "" THEN mv ELSE IF ev.err # "" THEN ev ELSE Ok(Tup(<<mv.v, ev.v>>), r.st)
       [] OTHER -> Er("Unsupported", st)
 
 -----------------------------------------------------------------------------
